@@ -249,7 +249,8 @@ PROPS = {
                 [("GcpVerif.Proofs.PoolDetector", "GcpVerif.Pool." + n) for n in ["detector_quiet", "detector_done", "detector_done_unknown", "detector_scs", "refresh_det"]] +
                 [("GcpVerif.Proofs.PoolStages", "GcpVerif.Pool.lift_quiet")]),
     "C08": dict(pool_prop([]), theorems=pool_thms(["fallback_sticky", "fallback_new", "bound_ready_home", "lookup_preserves_binding"]) +
-                [("GcpVerif.Proofs.PoolKeys", "GcpVerif.Pool." + n) for n in ["fallback_key_in_pool", "keyed_run"]]),
+                [("GcpVerif.Proofs.PoolKeys", "GcpVerif.Pool." + n) for n in ["fallback_key_in_pool", "keyed_run"]] +
+                [("GcpVerif.Proofs.PoolFallback", "GcpVerif.Pool." + n) for n in ["fbReady_run", "fallback_pick_ready", "fallback_pick_ready_of", "fbStages", "picker_slot_ready"]]),
     "C09": dict(pool_prop([], ["fairness: the n*k picks lie within the first 2^32 BIND picks (the uint32 cursor wraps after that; when n does not divide 2^32 the wrap breaks the cycle once: limitation K1, kernel-checked witness rr_unfair_at_wrap, not reachable through the API)", "pool composition unchanged during the window"]),
                 theorems=pool_thms(["rr_next_slot", "rrSlot_succ"]) + [("GcpVerif.Proofs.PoolRR", "GcpVerif.Pool." + n) for n in
                 ["rr_fair", "rr_fair_nowrap", "window_hits_once", "rrSlot_early", "rr_cursor", "pickRR_assigns", "rr_unfair_at_wrap"]] +
